@@ -1,8 +1,9 @@
 /-
-Chunk independence of the decoder on encoder output, from the first header block on (C01 P1, partial).
+Chunk independence of the decoder on whole bodies (C01 P1): preamble, raw parts with arbitrary header
+blocks, epilogue; CRLF / bare-LF / bare-CR line breaks.
 Core Lean only.
 -/
-import WzVerif.Lemmas.MultipartCodec
+import WzVerif.Lemmas.MultipartRaw
 import WzVerif.Lemmas.FormLimits
 namespace Wz.Multipart
 open Wz
@@ -501,29 +502,21 @@ theorem searchBlank_restrict {x c : Bytes} {s e : Nat} (h : searchBlank (x ++ c)
 
 def lfPre (lf : Bool) : Bytes := if lf then [10] else []
 
-theorem searchBlank_block_lf (nl : Nl) (lf : Bool) (lines : List Bytes) (Z : Bytes) (hne : lines ≠ [])
-    (hok : ∀ l ∈ lines, LineOk l) :
-    searchBlank (lfPre lf ++ (joinNl nl lines ++ (nl.bytes ++ (nl.bytes ++ Z)))) =
-      some ((lfPre lf).length + (joinNl nl lines).length,
-        (lfPre lf).length + (joinNl nl lines).length + 2 * nl.len) := by
+theorem searchBlank_lf_pre (lf : Bool) {x : UInt8} (r : Bytes) (hx : isNl x = false) :
+    searchBlank (lfPre lf ++ x :: r) = shift2 (lfPre lf).length (searchBlank (x :: r)) := by
   cases lf with
-  | false => simpa [lfPre] using searchBlank_block nl lines Z hne hok
+  | false =>
+    simp only [lfPre, Bool.false_eq_true, if_false, List.nil_append, List.length_nil]
+    cases searchBlank (x :: r) with
+    | none => rfl
+    | some v => simp [shift2]
   | true =>
-    cases lines with
-    | nil => exact absurd rfl hne
-    | cons l t =>
-      have hl := hok l (by simp)
-      rcases joinNl_head nl t hl.1 with ⟨x, r, hx, hxe⟩
-      have hxn : isNl x = false := by rw [hxe]; exact not_nl_of_not_space hl.2.2.1
-      have hb := searchBlank_block nl (l :: t) Z hne hok
-      simp only [lfPre, if_true, List.cons_append, List.nil_append]
-      rw [hx] at hb ⊢
-      have h0 : blankLen (10 :: (x :: r ++ (nl.bytes ++ (nl.bytes ++ Z)))) = 0 := by
-        simp [isNl] at hxn
-        have h2 : ((10 : UInt8) == x) = false := by simp; exact fun e => hxn.1 e.symm
-        simp [blankLen, List.isPrefixOf, h2]
-      rw [searchBlank_cons_zero h0, hb]
-      simp [shift2]; omega
+    simp only [lfPre, if_true, List.cons_append, List.nil_append]
+    have h0 : blankLen (10 :: x :: r) = 0 := by
+      simp [isNl] at hx
+      have h2 : ((10 : UInt8) == x) = false := by simp; exact fun e => hx.1 e.symm
+      simp [blankLen, List.isPrefixOf, h2]
+    rw [searchBlank_cons_zero h0]; rfl
 
 theorem fold_lf {x : UInt8} (r : Bytes) (h : isBytesSpace x = false) :
     foldContinuations (10 :: x :: r) = 10 :: foldContinuations (x :: r) := by
@@ -534,57 +527,53 @@ theorem fold_lf {x : UInt8} (r : Bytes) (h : isBytesSpace x = false) :
 theorem splitLines_lf (rest : Bytes) : splitLines (10 :: rest) = [] :: splitLines rest := by
   simp [splitLines, splitLines.go]
 
-theorem parseHeaders_block_lf (nl : Nl) (lf : Bool) (hs : Headers) (hne : hs ≠ [])
-    (hok : ∀ kv ∈ hs, HeaderOk kv) :
-    parseHeaders (lfPre lf ++ joinNl nl (hs.map lineOf)) = .ok hs := by
+/-- a stray LF in front of the header block (the second half of a split CRLF) is an empty line to
+`_parse_headers` -/
+theorem parseHeaders_lf_pre (lf : Bool) {x : UInt8} (r : Bytes) (hx : isBytesSpace x = false) :
+    parseHeaders (lfPre lf ++ x :: r) = parseHeaders (x :: r) := by
   cases lf with
-  | false => simpa [lfPre] using parseHeaders_block nl hs hok
+  | false => simp [lfPre]
   | true =>
-    have hlines : ∀ l ∈ hs.map lineOf, LineOk l := by
-      intro l hl
-      rcases List.mem_map.1 hl with ⟨kv, hkv, rfl⟩
-      exact lineOk_of_headerOk (hok kv hkv)
-    cases hs with
-    | nil => exact absurd rfl hne
-    | cons kv t =>
-      have hl := hlines (lineOf kv) (by simp)
-      rcases joinNl_head nl (t.map lineOf) hl.1 with ⟨x, r, hx, hxe⟩
-      have hb := parseHeaders_block nl (kv :: t) hok
-      simp only [List.map_cons] at hx hb
-      simp only [lfPre, if_true, List.cons_append, List.nil_append, List.map_cons]
-      unfold parseHeaders at hb ⊢
-      rw [hx] at hb ⊢
-      rw [fold_lf r (by rw [hxe]; exact hl.2.2.1), splitLines_lf]
-      simp only [List.map_cons]
-      have hs0 : stripBytes [] = [] := rfl
-      rw [hs0]
-      simp only [List.filter_cons, List.isEmpty_nil, Bool.not_true, Bool.false_eq_true, if_false]
-      exact hb
+    simp only [lfPre, if_true, List.cons_append, List.nil_append]
+    unfold parseHeaders
+    rw [fold_lf r hx, splitLines_lf]
+    simp only [List.map_cons]
+    have hs0 : stripBytes [] = [] := rfl
+    rw [hs0]
+    simp only [List.filter_cons, List.isEmpty_nil, Bool.not_true, Bool.false_eq_true, if_false]
+
+theorem headEvent_lf_pre (lf : Bool) {x : UInt8} (r : Bytes) (hx : isBytesSpace x = false) :
+    headEvent (lfPre lf ++ x :: r) = headEvent (x :: r) := by
+  unfold headEvent
+  rw [parseHeaders_lf_pre lf r hx]
 
 /-! ### bodies with a preamble -/
 
 /-- the whole body: preamble bytes `pr`, then either `NL--boundary…` (`lead = true`) or — only
 without a preamble — `--boundary…` directly, as browsers send it (`lead = false`); `nl` is the line
-break of the delimiter and header lines -/
-def bodyOf (nl : Nl) (bnd ep pr : Bytes) (lead : Bool) (ps : List Part) : Bytes :=
-  pr ++ (if lead then encBody nl bnd ep ps else (encBody nl bnd ep ps).drop nl.len)
+break of the delimiter lines -/
+def bodyOfR (nl : Nl) (bnd ep pr : Bytes) (lead : Bool) (ps : List RawPart) : Bytes :=
+  pr ++ (if lead then rawBody nl bnd ep ps else (rawBody nl bnd ep ps).drop nl.len)
 
-/-- the preamble does not contain `--boundary` (it may contain anything else, line breaks and dashes
-included) and, for bare-LF bodies, does not end in CR (which would merge with the LF of the first
-delimiter); without the leading line break there is no preamble -/
-def PreOk (nl : Nl) (bnd pr : Bytes) (lead : Bool) : Prop :=
-  if lead then containsSub (delim bnd) pr = false ∧ (nl = .lf → pr.getLast? ≠ some 13) else pr = []
+/-- the most general admissible preamble (decidable): `preamble_re` matches nowhere inside it when the
+whole body is searched, i.e. the first delimiter the decoder can find is the intended one. The
+preamble may contain `--boundary` as long as the occurrence is not a delimiter line (`--boundaryX`,
+`--boundary junk`). -/
+def PreFreeR (nl : Nl) (bnd ep pr : Bytes) (lead : Bool) (ps : List RawPart) : Prop :=
+  if lead then ∀ j, j < pr.length → matchDelimAt bnd true ((pr ++ rawBody nl bnd ep ps).drop j) = none
+  else pr = []
 
-instance (nl : Nl) (bnd pr : Bytes) (lead : Bool) : Decidable (PreOk nl bnd pr lead) := by
-  unfold PreOk; split <;> infer_instance
+instance (nl : Nl) (bnd ep pr : Bytes) (lead : Bool) (ps : List RawPart) :
+    Decidable (PreFreeR nl bnd ep pr lead ps) := by
+  unfold PreFreeR; split <;> infer_instance
 
 /-! ### phases of the run over the encoder output -/
 
 inductive Phase where
-  | pre (ps : List Part)
-  | hdr (lf : Bool) (p : Part) (ps : List Part)
-  | dataS (p : Part) (ps : List Part)
-  | dataM (p : Part) (ps : List Part) (E : Bytes)
+  | pre (ps : List RawPart)
+  | hdr (lf : Bool) (p : RawPart) (ps : List RawPart)
+  | dataS (p : RawPart) (ps : List RawPart)
+  | dataM (p : RawPart) (ps : List RawPart) (E : Bytes)
   | epi
 
 def Plain (bnd : Bytes) (d : Decoder) : Prop :=
@@ -592,17 +581,17 @@ def Plain (bnd : Bytes) (d : Decoder) : Prop :=
 
 /-- data phases: where the delimiter that ends part `p` lies in what remains (`buf ++ fut`), what
 precedes it (after the bytes `pre` already released) and what follows it -/
-def DataInv (nl : Nl) (bnd ep : Bytes) (p : Part) (ps : List Part) (pre buf fut : Bytes) : Prop :=
+def DataInv (nl : Nl) (bnd ep : Bytes) (p : RawPart) (ps : List RawPart) (pre buf fut : Bytes) : Prop :=
   ∃ s0 e0, searchDelim bnd false (buf ++ fut) = some (s0, e0, ps.isEmpty) ∧
-    (pre ++ (buf ++ fut).take s0).drop nl.len = p.payload ∧ (buf ++ fut).drop e0 = afterOf nl bnd ep ps
+    (pre ++ (buf ++ fut).take s0).drop nl.len = p.payload ∧ (buf ++ fut).drop e0 = rAfterOf nl bnd ep ps
 
 def Good (nl : Nl) (bnd ep pr : Bytes) (lead : Bool) (d : Decoder) (fut : Bytes) : Phase → Prop
   | .pre ps =>
-    Plain bnd d ∧ d.state = .preamble ∧ d.buffer ++ fut = bodyOf nl bnd ep pr lead ps ∧
-      ∃ b0 c0, d.buffer = b0 ++ c0 ∧ searchDelim bnd true b0 = none ∧
+    Plain bnd d ∧ d.state = .preamble ∧ d.buffer ++ fut = bodyOfR nl bnd ep pr lead ps ∧
+      PreFreeR nl bnd ep pr lead ps ∧ ∃ b0 c0, d.buffer = b0 ++ c0 ∧ searchDelim bnd true b0 = none ∧
         d.searchPos = b0.length - bnd.length - searchExtra
   | .hdr lf p ps =>
-    Plain bnd d ∧ d.state = .part ∧ d.buffer ++ fut = lfPre lf ++ afterOf nl bnd ep (p :: ps) ∧
+    Plain bnd d ∧ d.state = .part ∧ d.buffer ++ fut = lfPre lf ++ rAfterOf nl bnd ep (p :: ps) ∧
       ∃ b0 c0, d.buffer = b0 ++ c0 ∧ searchBlank b0 = none ∧ d.searchPos = b0.length - searchExtra
   | .dataS p ps =>
     Plain bnd d ∧ d.state = .dataStart ∧ d.searchPos = 0 ∧ 0 < lbLen d.buffer ∧
@@ -613,12 +602,13 @@ def Good (nl : Nl) (bnd ep pr : Bytes) (lead : Bool) (d : Decoder) (fut : Bytes)
   | .epi => Plain bnd d ∧ d.state = .epilogue
 
 /-- the single-shot facts about the data stretch of part `p` -/
-theorem dataOf_search {bnd : Bytes} (hb : BoundaryOk bnd) (p : Part) (ps : List Part) (hv : ValidPart nl bnd p) :
-    DataInv nl bnd ep p ps [] (dataOf nl bnd ep p ps) [] := by
-  have hspec := dataSpec_dataOf (nl := nl) (ep := ep) hb p ps hv
-  have hlb := lbLen_dataOf (nl := nl) (ep := ep) p ps hv
+theorem rDataOf_search {bnd : Bytes} (hb : BoundaryOk bnd) (p : RawPart) (ps : List RawPart) (hv : RawOk nl bnd p)
+    (hvs : ∀ q ∈ ps, RawOk nl bnd q) :
+    DataInv nl bnd ep p ps [] (rDataOf nl bnd ep p ps) [] := by
+  have hspec := dataSpec_rDataOf (nl := nl) (ep := ep) hb p ps hv hvs
+  have hlb := lbLen_rDataOf (nl := nl) (ep := ep) p ps hv
   rw [dataSpec_true, hlb] at hspec
-  cases hs : searchDelim bnd false (dataOf nl bnd ep p ps) with
+  cases hs : searchDelim bnd false (rDataOf nl bnd ep p ps) with
   | none => rw [hs] at hspec; simp at hspec
   | some v =>
     rcases v with ⟨s, e, f⟩
@@ -628,107 +618,95 @@ theorem dataOf_search {bnd : Bytes} (hb : BoundaryOk bnd) (p : Part) (ps : List 
     subst hfe
     exact ⟨s, e, by simpa using hs, by simpa using hpay, by simpa using hrest⟩
 
-theorem afterOf_cons_blank (bnd : Bytes) (p : Part) (ps : List Part) :
-    ∃ Z, afterOf nl bnd ep (p :: ps) = hdrBlock nl (nameOf p) p ++ (nl.bytes ++ (nl.bytes ++ Z)) ∧
-      dataOf nl bnd ep p ps = nl.bytes ++ Z := by
-  rcases dataOf_blank bnd p ps with ⟨Z, hZ⟩
-  exact ⟨Z, by rw [afterOf_cons, hZ], hZ⟩
+theorem rAfterOf_cons_blank (bnd : Bytes) (p : RawPart) (ps : List RawPart) :
+    ∃ Z, rAfterOf nl bnd ep (p :: ps) = p.hdr ++ (nl.bytes ++ (nl.bytes ++ Z)) ∧
+      rDataOf nl bnd ep p ps = nl.bytes ++ Z := by
+  rcases rDataOf_blank bnd p ps with ⟨Z, hZ⟩
+  exact ⟨Z, by rw [rAfterOf_cons, hZ], hZ⟩
 
 /-- one `next_event` in the PART phase, on any prefix of the stream -/
-theorem step_hdr {bnd : Bytes} (hb : BoundaryOk bnd) {d : Decoder} {fut : Bytes} {lf : Bool} {p : Part}
-    {ps : List Part} (hv : ValidPart nl bnd p) (hg : Good nl bnd ep pr lead d fut (.hdr lf p ps)) :
+theorem step_hdr {bnd : Bytes} (hb : BoundaryOk bnd) {d : Decoder} {fut : Bytes} {lf : Bool} {p : RawPart}
+    {ps : List RawPart} (hv : RawOk nl bnd p) (hvs : ∀ q ∈ ps, RawOk nl bnd q)
+    (hg : Good nl bnd ep pr lead d fut (.hdr lf p ps)) :
     (∃ d', nextEvent d = .ok (.needData, d') ∧ Good nl bnd ep pr lead d' fut (.hdr lf p ps) ∧ fut ≠ []) ∨
-    (∃ d', nextEvent d = .ok (partHeadEvent (decodedPart p), d') ∧ Good nl bnd ep pr lead d' fut (.dataS p ps)) := by
+    (∃ d', nextEvent d = .ok (partHeadEvent p.out, d') ∧ Good nl bnd ep pr lead d' fut (.dataS p ps)) := by
   rcases hg with ⟨⟨hbn, hcomp, hmm, hmp⟩, hst, hcat, b0, c0, hbc, hb0, hpos⟩
-  have hf := validPart_facts hv
-  have hok := allHeadersOk hv
-  have hlines : ∀ l ∈ (cdHeader (nameOf p) p.filename :: p.headers).map lineOf, LineOk l := by
-    intro l hl
-    rcases List.mem_map.1 hl with ⟨kv, hkv, rfl⟩
-    exact lineOk_of_headerOk (hok kv hkv)
-  rcases afterOf_cons_blank bnd p ps with ⟨Z, hZ, hdZ⟩
+  rcases rawOk_head hv with ⟨x, t, hx, hsp⟩
+  have hxn : isNl x = false := not_nl_of_not_space hsp
+  have hev := (rawOk_event hv).1
+  rcases rAfterOf_cons_blank (nl := nl) (ep := ep) bnd p ps with ⟨Z, hZ, hdZ⟩
   -- the whole stream and its first blank line
-  have hW : d.buffer ++ fut = lfPre lf ++ (hdrBlock nl (nameOf p) p ++ (nl.bytes ++ (nl.bytes ++ Z))) := by
+  have hW : d.buffer ++ fut = lfPre lf ++ (p.hdr ++ (nl.bytes ++ (nl.bytes ++ Z))) := by
     rw [hcat, hZ]
-  have hsbW := searchBlank_block_lf nl lf _ Z (by simp) hlines
-  rw [← hdrBlock, ← hW] at hsbW
+  let L := (lfPre lf).length + p.hdr.length
+  have hsb0 : searchBlank (p.hdr ++ (nl.bytes ++ (nl.bytes ++ Z))) =
+      some (p.hdr.length, p.hdr.length + 2 * nl.len) := by
+    have := searchBlank_append_stable Z hv.2.1
+    simpa [List.append_assoc] using this
+  have hsbW : searchBlank (d.buffer ++ fut) = some (L, L + 2 * nl.len) := by
+    rw [hW]
+    have e1 : p.hdr ++ (nl.bytes ++ (nl.bytes ++ Z)) = x :: (t ++ (nl.bytes ++ (nl.bytes ++ Z))) := by
+      rw [hx]; rfl
+    rw [e1, searchBlank_lf_pre lf _ hxn, ← e1, hsb0]
+    simp [shift2, L]; omega
   -- the retained search position does not matter
   have hfrom : searchBlankFrom d.searchPos d.buffer = searchBlank d.buffer := by
     rw [hpos, hbc]; exact searchPos_irrelevant_blank_lemma hb0
-  let L := (lfPre lf).length + (hdrBlock nl (nameOf p) p).length
   by_cases hlen : L + 2 * nl.len ≤ d.buffer.length
   · right
     have hsb : searchBlank d.buffer = some (L, L + 2 * nl.len) := searchBlank_restrict hsbW hlen
-    have htake : d.buffer.take L = lfPre lf ++ hdrBlock nl (nameOf p) p := by
-      have : (d.buffer ++ fut).take L = lfPre lf ++ hdrBlock nl (nameOf p) p := by
+    have htake : d.buffer.take L = lfPre lf ++ p.hdr := by
+      have : (d.buffer ++ fut).take L = lfPre lf ++ p.hdr := by
         rw [hW, ← List.append_assoc]; exact List.take_left' (by simp [L])
       rw [List.take_append_of_le_length (by omega)] at this
       exact this
-    have hparse : parseHeaders (lfPre lf ++ hdrBlock nl (nameOf p) p) =
-        .ok (cdHeader (nameOf p) p.filename :: p.headers) :=
-      parseHeaders_block_lf nl lf _ (by simp) hok
-    have hdropW : (d.buffer ++ fut).drop (L + nl.len) = dataOf nl bnd ep p ps := by
+    have hevL : headEvent (lfPre lf ++ p.hdr) = .ok (partHeadEvent p.out) := by
+      rw [hx, headEvent_lf_pre lf t hsp, ← hx]; exact hev
+    have hdropW : (d.buffer ++ fut).drop (L + nl.len) = rDataOf nl bnd ep p ps := by
       rw [hW, ← List.append_assoc, hdZ]
-      have : L + nl.len = nl.len + (lfPre lf ++ hdrBlock nl (nameOf p) p).length := by simp [L]; omega
+      have : L + nl.len = nl.len + (lfPre lf ++ p.hdr).length := by simp [L]; omega
       rw [this, drop_add_append]; simp [Nl.len]
-    have hdrop : d.buffer.drop (L + nl.len) ++ fut = dataOf nl bnd ep p ps := by
+    have hdrop : d.buffer.drop (L + nl.len) ++ fut = rDataOf nl bnd ep p ps := by
       rw [← hdropW, List.drop_append_of_le_length (by omega)]
-    have hopt := FormOptions.parseOptions_disposition_lemma (nameOf p) p.filename hf.1
-      (fun x hx => (hf.2.2.1 x hx).1)
-    have hnm := validPart_name hv
     have hhalf : (L + (L + 2 * nl.len)) / 2 = L + nl.len := by omega
     let d' : Decoder := { d with buffer := d.buffer.drop (L + nl.len), state := .dataStart, searchPos := 0,
                                  partsDecoded := d.partsDecoded + 1 }
-    have hstep : step d = .ok (partHeadEvent (decodedPart p), d') := by
-      unfold step
-      rw [hst]
-      simp only
-      rw [hfrom, hsb]
-      simp only
-      rw [htake, hparse]
-      simp only
-      rw [headerGet_cd]
-      simp only
-      rw [hopt]
-      simp only
-      rw [lookup_name, lookup_filename, hhalf, hmp]
-      cases hfn : p.filename with
-      | none => simp [partHeadEvent, decodedPart, hfn, hnm, d', hmp]
-      | some x => simp [partHeadEvent, decodedPart, hfn, hnm, d', hmp]
+    have hstep : step d = .ok (partHeadEvent p.out, d') := by
+      have := step_part_of_headEvent hst hmp (by rw [hfrom, hsb]) (by rw [htake]; exact hevL)
+      rw [hhalf] at this
+      exact this
     refine ⟨d', ?_, ?_⟩
     · unfold nextEvent
       rw [hstep, hcomp]
-      cases hfn : p.filename with
-      | none => simp [partHeadEvent, decodedPart, hfn]
-      | some x => simp [partHeadEvent, decodedPart, hfn]
+      simp
     · have hpre : d'.buffer ++ fut = nl.bytes ++ Z := by simp only [d']; rw [hdrop, hdZ]
       have hlbW : lbLen (d'.buffer ++ fut) = nl.len := by
-        simp only [d']; rw [hdrop]; exact lbLen_dataOf p ps hv
+        simp only [d']; rw [hdrop]; exact lbLen_rDataOf p ps hv
       refine ⟨⟨hbn, hcomp, hmm, hmp⟩, rfl, rfl, ?_, hlbW, ?_⟩
       · -- the new buffer starts with the line break
         have hnp := nl.len_pos
         have h1 : 1 ≤ d'.buffer.length := by simp [d']; omega
-        rcases nl.head_isNl Z with ⟨a, t, he, ha⟩
+        rcases nl.head_isNl Z with ⟨a, t2, he, ha⟩
         match hbuf : d'.buffer, h1 with
-        | x :: t', _ =>
+        | y :: t', _ =>
           rw [hbuf, he] at hpre
           simp at hpre
-          exact lbLen_pos_iff.2 ⟨x, t', rfl, by rw [hpre.1]; exact ha⟩
-      · have := dataOf_search (nl := nl) (ep := ep) hb p ps hv
+          exact lbLen_pos_iff.2 ⟨y, t', rfl, by rw [hpre.1]; exact ha⟩
+      · have := rDataOf_search (nl := nl) (ep := ep) hb p ps hv hvs
         rcases this with ⟨s0, e0, h1, h2, h3⟩
         simp only [List.append_nil] at h1 h2 h3
         exact ⟨s0, e0, by simp only [d']; rw [hdrop]; exact h1, by simp only [d']; rw [hdrop]; exact h2,
           by simp only [d']; rw [hdrop]; exact h3⟩
   · left
     have hnone : searchBlank d.buffer = none := by
-      cases hx : searchBlank d.buffer with
+      cases hq : searchBlank d.buffer with
       | none => rfl
       | some v =>
         rcases v with ⟨s, e⟩
-        have := searchBlank_append_stable fut hx
+        have := searchBlank_append_stable fut hq
         rw [hsbW] at this
         simp at this
-        have hbd := searchBlank_bounds hx
+        have hbd := searchBlank_bounds hq
         omega
     let d' : Decoder := { d with searchPos := d.buffer.length - searchExtra }
     have hstep : step d = .ok (.needData, d') := by
@@ -783,14 +761,14 @@ theorem searchDelim_none_of_nl_append {nl : Nl} {bnd b : Bytes} {o : Bool}
   | cr => exact (searchDelim_cons_eq_none.1 h).2
 
 /-- the whole body has its first delimiter at offset 0 -/
-theorem encBody_match (bnd : Bytes) (ps : List Part) :
-    ∃ m, matchDelimAt bnd false (encBody nl bnd ep ps) = some (nl.len + (bnd.length + 2) + m, ps.isEmpty) ∧
-      (encBody nl bnd ep ps).drop (nl.len + (bnd.length + 2) + m) = afterOf nl bnd ep ps ∧
+theorem rawBody_match {bnd : Bytes} (ps : List RawPart) (hvs : ∀ q ∈ ps, RawOk nl bnd q) :
+    ∃ m, matchDelimAt bnd false (rawBody nl bnd ep ps) = some (nl.len + (bnd.length + 2) + m, ps.isEmpty) ∧
+      (rawBody nl bnd ep ps).drop (nl.len + (bnd.length + 2) + m) = rAfterOf nl bnd ep ps ∧
       (ps.isEmpty = false → m = nl.len) := by
-  have hl := nl.lbLen_delim bnd (tailOf nl bnd ep ps)
-  have hA := afterDelim_tailOf (nl := nl) (ep := ep) bnd ps
-  have key : ∃ m, matchTail (tailOf nl bnd ep ps) = some (m, ps.isEmpty) ∧
-      (tailOf nl bnd ep ps).drop m = afterOf nl bnd ep ps ∧ (ps.isEmpty = false → m = nl.len) := by
+  have hl := nl.lbLen_delim bnd (rTailOf nl bnd ep ps)
+  have hA := rAfterDelim_tailOf (nl := nl) (ep := ep) ps hvs
+  have key : ∃ m, matchTail (rTailOf nl bnd ep ps) = some (m, ps.isEmpty) ∧
+      (rTailOf nl bnd ep ps).drop m = rAfterOf nl bnd ep ps ∧ (ps.isEmpty = false → m = nl.len) := by
     cases hf : ps.isEmpty with
     | true =>
       rw [hf] at hA
@@ -802,21 +780,22 @@ theorem encBody_match (bnd : Bytes) (ps : List Part) :
       exact ⟨nl.len, this.1, this.2, fun _ => rfl⟩
   rcases key with ⟨m, hm, hdrop, hmn⟩
   refine ⟨m, ?_, ?_, hmn⟩
-  · rw [encBody_eq]
+  · rw [rawBody_eq]
     apply matchDelimAt_iff.2
-    exact ⟨tailOf nl bnd ep ps, m, by rw [hl]; exact nl.len_pos, by rw [hl]; simp [Nl.len], hm, by rw [hl]⟩
-  · rw [encBody_eq]
+    exact ⟨rTailOf nl bnd ep ps, m, by rw [hl]; exact nl.len_pos, by rw [hl]; simp [Nl.len], hm, by rw [hl]⟩
+  · rw [rawBody_eq]
     have e2 : nl.len + (bnd.length + 2) + m = (m + (delim bnd).length) + nl.bytes.length := by
       simp [delim, Nl.len]; omega
     rw [e2, drop_add_append, drop_add_append, hdrop]
 
 /-- while the first delimiter is not complete in the buffer, `preamble_re` finds nothing at all -/
-theorem pre_no_match {bnd : Bytes} (hb : BoundaryOk bnd) {ps : List Part} {b fut : Bytes}
-    (hcat : b ++ fut = encBody nl bnd ep ps) (h0 : matchDelimAt bnd true b = none) :
+theorem pre_no_match {bnd : Bytes} (hb : BoundaryOk bnd) {ps : List RawPart} (hvs : ∀ q ∈ ps, RawOk nl bnd q)
+    {b fut : Bytes}
+    (hcat : b ++ fut = rawBody nl bnd ep ps) (h0 : matchDelimAt bnd true b = none) :
     searchDelim bnd true b = none := by
-  rcases encBody_match (nl := nl) (ep := ep) bnd ps with ⟨m, hM, _, hmn⟩
+  rcases rawBody_match (nl := nl) (ep := ep) ps hvs with ⟨m, hM, _, hmn⟩
   have hMt := matchDelimAt_true_of_false hM
-  have hlW : lbLen (b ++ fut) = nl.len := by rw [hcat, encBody_eq]; exact nl.lbLen_delim bnd _
+  have hlW : lbLen (b ++ fut) = nl.len := by rw [hcat, rawBody_eq]; exact nl.lbLen_delim bnd _
   have hnp := nl.len_pos
   have hn2 := nl.len_le_two
   -- the buffer is short
@@ -852,10 +831,10 @@ theorem pre_no_match {bnd : Bytes} (hb : BoundaryOk bnd) {ps : List Part} {b fut
         | some w =>
           rcases w with ⟨s', e', f'⟩
           rcases searchDelim_append_stable hb hs fut with ⟨e2, hst, _⟩
-          have hS0 : searchDelim bnd false (encBody nl bnd ep ps) =
+          have hS0 : searchDelim bnd false (rawBody nl bnd ep ps) =
               some (0, nl.len + (bnd.length + 2) + m, ps.isEmpty) := by
-            rw [encBody_eq] at hM ⊢
-            rcases nl.head_isNl (delim bnd ++ tailOf nl bnd ep ps) with ⟨a, t, he, _⟩
+            rw [rawBody_eq] at hM ⊢
+            rcases nl.head_isNl (delim bnd ++ rTailOf nl bnd ep ps) with ⟨a, t, he, _⟩
             rw [he] at hM ⊢
             exact searchDelim_cons_some hM
           rw [hcat, hS0] at hst
@@ -876,10 +855,10 @@ theorem pre_no_match {bnd : Bytes} (hb : BoundaryOk bnd) {ps : List Part} {b fut
           cases j with
           | zero => simp only [List.drop_zero] at hx; rw [h0] at hx; simp at hx
           | succ j' =>
-            have hpre1 : b.drop (j' + 1) <+: (encBody nl bnd ep ps).drop (j' + 1) := by
+            have hpre1 : b.drop (j' + 1) <+: (rawBody nl bnd ep ps).drop (j' + 1) := by
               refine ⟨fut, ?_⟩
               rw [← hcat, List.drop_append_of_le_length (by omega)]
-            rw [encBody_eq, hd] at hpre1
+            rw [rawBody_eq, hd] at hpre1
             rcases hpre1 with ⟨t, ht⟩
             cases nl with
             | lf => simp [Nl.len, Nl.bytes] at hj1
@@ -893,7 +872,7 @@ theorem pre_no_match {bnd : Bytes} (hb : BoundaryOk bnd) {ps : List Part} {b fut
             subst hj2
             have hbl : nl.len ≤ b.length := by omega
             have htake : b.take nl.len = nl.bytes := by
-              have : (b ++ fut).take nl.len = nl.bytes := by rw [hcat, encBody_eq]; simp [Nl.len]
+              have : (b ++ fut).take nl.len = nl.bytes := by rw [hcat, rawBody_eq]; simp [Nl.len]
               rwa [List.take_append_of_le_length hbl] at this
             have hb2 : b = nl.bytes ++ (delim bnd ++ r) := by
               rw [← List.take_append_drop nl.len b, htake, hd]
@@ -911,7 +890,7 @@ theorem pre_no_match {bnd : Bytes} (hb : BoundaryOk bnd) {ps : List Part} {b fut
   simp [searchDelim]
 
 /-- what comes after the delimiter that ends a part -/
-def GoodNext (nl : Nl) (bnd ep pr : Bytes) (lead : Bool) (d : Decoder) (fut : Bytes) : List Part → Prop
+def GoodNext (nl : Nl) (bnd ep pr : Bytes) (lead : Bool) (d : Decoder) (fut : Bytes) : List RawPart → Prop
   | [] => Good nl bnd ep pr lead d fut .epi
   | p :: ps => ∃ lf, Good nl bnd ep pr lead d fut (.hdr lf p ps)
 
@@ -973,27 +952,28 @@ theorem no_match_in_pre {bnd : Bytes} (hb : BoundaryOk bnd) {pr : Bytes} {c : UI
     rw [h] at this; simp at this
 
 /-- the body from `NL--boundary` on: what `preamble_re` anchored at its start says about a prefix -/
-theorem first_delim_core {bnd : Bytes} (hb : BoundaryOk bnd) {ps : List Part} {b fut : Bytes}
-    (hcat : b ++ fut = encBody nl bnd ep ps) :
+theorem first_delim_core {bnd : Bytes} (hb : BoundaryOk bnd) {ps : List RawPart} (hvs : ∀ q ∈ ps, RawOk nl bnd q)
+    {b fut : Bytes}
+    (hcat : b ++ fut = rawBody nl bnd ep ps) :
     (matchDelimAt bnd true b = none → searchDelim bnd true b = none ∧ fut ≠ []) ∧
     (∀ e f, matchDelimAt bnd true b = some (e, f) →
       f = ps.isEmpty ∧ 0 < e ∧ e ≤ b.length ∧ (f = false → e ≤ bnd.length + 6) ∧
-      (f = false → ∃ lf, b.drop e ++ fut = lfPre lf ++ afterOf nl bnd ep ps)) := by
-  rcases encBody_match (nl := nl) (ep := ep) bnd ps with ⟨m, hM, hMdrop, hmn⟩
+      (f = false → ∃ lf, b.drop e ++ fut = lfPre lf ++ rAfterOf nl bnd ep ps)) := by
+  rcases rawBody_match (nl := nl) (ep := ep) ps hvs with ⟨m, hM, hMdrop, hmn⟩
   constructor
   · intro h0
-    refine ⟨pre_no_match hb hcat h0, ?_⟩
+    refine ⟨pre_no_match hb hvs hcat h0, ?_⟩
     intro hfe
     rw [hfe, List.append_nil] at hcat
     rw [hcat, matchDelimAt_true_of_false hM] at h0; simp at h0
   · intro e f h0
     have hbnd0 := matchDelimAt_bounds_any h0
     have hlb : 0 < lbLen b := by
-      rcases nl.head_isNl (delim bnd ++ tailOf nl bnd ep ps) with ⟨a, t, he, ha⟩
+      rcases nl.head_isNl (delim bnd ++ rTailOf nl bnd ep ps) with ⟨a, t, he, ha⟩
       cases b with
       | nil => simp at hbnd0; omega
       | cons x b' =>
-        rw [encBody_eq, he] at hcat
+        rw [rawBody_eq, he] at hcat
         simp at hcat
         exact lbLen_pos_iff.2 ⟨x, b', rfl, by rw [hcat.1]; exact ha⟩
     have h0f := matchDelimAt_false_of_true hlb h0
@@ -1024,19 +1004,20 @@ theorem first_delim_core {bnd : Bytes} (hb : BoundaryOk bnd) {ps : List Part} {b
         rw [this]; rfl
 
 /-- **the first delimiter of a body with preamble**, seen through any prefix of the body -/
-theorem pre_search {bnd : Bytes} (hb : BoundaryOk bnd) (hpre : PreOk nl bnd pr lead) {ps : List Part}
-    {b fut : Bytes} (hcat : b ++ fut = bodyOf nl bnd ep pr lead ps) :
+theorem pre_search {bnd : Bytes} (hb : BoundaryOk bnd) {ps : List RawPart} (hvs : ∀ q ∈ ps, RawOk nl bnd q)
+    (hpre : PreFreeR nl bnd ep pr lead ps)
+    {b fut : Bytes} (hcat : b ++ fut = bodyOfR nl bnd ep pr lead ps) :
     (searchDelim bnd true b = none ∧ fut ≠ []) ∨
     (∃ e f, searchDelim bnd true b = some (pr.length, e, f) ∧ f = ps.isEmpty ∧ pr.length < e ∧
       e ≤ b.length ∧ (f = false → e - pr.length ≤ bnd.length + 6) ∧
-      (f = false → ∃ lf, b.drop e ++ fut = lfPre lf ++ afterOf nl bnd ep ps)) := by
+      (f = false → ∃ lf, b.drop e ++ fut = lfPre lf ++ rAfterOf nl bnd ep ps)) := by
   have hnp : 0 < nl.bytes.length := nl.len_pos
   cases lead with
   | true =>
-    simp only [PreOk, if_true] at hpre
-    simp only [bodyOf, if_true] at hcat
-    rcases nl.head_spec (delim bnd ++ tailOf nl bnd ep ps) with ⟨c, Y, hcY, hcn, hc10⟩
-    have hY : encBody nl bnd ep ps = c :: Y := by rw [encBody_eq, hcY]
+    simp only [PreFreeR, if_true] at hpre
+    simp only [bodyOfR, if_true] at hcat
+    rcases nl.head_isNl (delim bnd ++ rTailOf nl bnd ep ps) with ⟨c, Y, hcY, _⟩
+    have hY : rawBody nl bnd ep ps = c :: Y := by rw [rawBody_eq, hcY]
     -- nothing matches at a position inside the preamble, in the buffer or in the body
     have hnone : ∀ j, j < pr.length → matchDelimAt bnd true (b.drop j) = none := by
       intro j hj
@@ -1050,8 +1031,7 @@ theorem pre_search {bnd : Bytes} (hb : BoundaryOk bnd) (hpre : PreOk nl bnd pr l
           rw [List.drop_eq_nil_of_le (by omega)] at hx
           simp [matchDelimAt, lbLen] at hx
         rcases matchDelimAt_true_append fut hx with ⟨n', hn'⟩
-        rw [← List.drop_append_of_le_length hjb, hcat, hY] at hn'
-        rw [no_match_in_pre hb Y hcn hpre.1 (fun e => hpre.2 (hc10 e)) j hj] at hn'; simp at hn'
+        rw [← List.drop_append_of_le_length hjb, hcat, hpre j hj] at hn'; simp at hn'
     by_cases hlen : b.length ≤ pr.length
     · left
       constructor
@@ -1069,11 +1049,11 @@ theorem pre_search {bnd : Bytes} (hb : BoundaryOk bnd) (hpre : PreOk nl bnd pr l
         have h2 := List.take_append_drop pr.length b
         rw [h1] at h2
         exact h2.symm
-      have hcat' : b.drop pr.length ++ fut = encBody nl bnd ep ps := by
-        have : (b ++ fut).drop pr.length = encBody nl bnd ep ps := by rw [hcat]; simp
+      have hcat' : b.drop pr.length ++ fut = rawBody nl bnd ep ps := by
+        have : (b ++ fut).drop pr.length = rawBody nl bnd ep ps := by rw [hcat]; simp
         rw [List.drop_append_of_le_length (by omega)] at this; exact this
       have hskip := searchDelim_skip (bnd := bnd) (o := true) b pr.length hnone
-      rcases first_delim_core hb hcat' with ⟨hA, hB⟩
+      rcases first_delim_core hb hvs hcat' with ⟨hA, hB⟩
       cases h0 : matchDelimAt bnd true (b.drop pr.length) with
       | none =>
         left
@@ -1095,15 +1075,15 @@ theorem pre_search {bnd : Bytes} (hb : BoundaryOk bnd) (hpre : PreOk nl bnd pr l
           refine ⟨lf, ?_⟩
           rw [← hl, Nat.add_comm, ← List.drop_drop]
   | false =>
-    simp only [PreOk, Bool.false_eq_true, if_false] at hpre
+    simp only [PreFreeR, Bool.false_eq_true, if_false] at hpre
     subst hpre
-    simp only [bodyOf, Bool.false_eq_true, if_false, List.nil_append] at hcat
-    have hY : encBody nl bnd ep ps = nl.bytes ++ (delim bnd ++ tailOf nl bnd ep ps) := encBody_eq bnd ps
-    have hdropY : (encBody nl bnd ep ps).drop nl.len = delim bnd ++ tailOf nl bnd ep ps := by
+    simp only [bodyOfR, Bool.false_eq_true, if_false, List.nil_append] at hcat
+    have hY : rawBody nl bnd ep ps = nl.bytes ++ (delim bnd ++ rTailOf nl bnd ep ps) := rawBody_eq bnd ps
+    have hdropY : (rawBody nl bnd ep ps).drop nl.len = delim bnd ++ rTailOf nl bnd ep ps := by
       rw [hY]; simp [Nl.len]
     rw [hdropY] at hcat
-    have hcat2 : (nl.bytes ++ b) ++ fut = encBody nl bnd ep ps := by rw [hY, List.append_assoc, hcat]
-    rcases first_delim_core hb hcat2 with ⟨hA, hB⟩
+    have hcat2 : (nl.bytes ++ b) ++ fut = rawBody nl bnd ep ps := by rw [hY, List.append_assoc, hcat]
+    rcases first_delim_core hb hvs hcat2 with ⟨hA, hB⟩
     have hlbb : lbLen (nl.bytes ++ b) = nl.len := by
       cases b with
       | nil => cases nl <;> simp [Nl.bytes, Nl.len, lbLen]
@@ -1152,14 +1132,14 @@ theorem nextEvent_of_step' {d d' : Decoder} {ev : Event} (hc : d.complete = fals
   unfold nextEvent; rw [h, hc]; simp
 
 /-- one `next_event` in the PREAMBLE phase, on any prefix of the body -/
-theorem step_pre {bnd : Bytes} (hb : BoundaryOk bnd) (hpre : PreOk nl bnd pr lead) {d : Decoder} {fut : Bytes}
-    {ps : List Part} (hg : Good nl bnd ep pr lead d fut (.pre ps)) :
+theorem step_pre {bnd : Bytes} (hb : BoundaryOk bnd) {d : Decoder} {fut : Bytes}
+    {ps : List RawPart} (hvs : ∀ q ∈ ps, RawOk nl bnd q) (hg : Good nl bnd ep pr lead d fut (.pre ps)) :
     (∃ d', nextEvent d = .ok (.needData, d') ∧ Good nl bnd ep pr lead d' fut (.pre ps) ∧ fut ≠ []) ∨
     (∃ x d', nextEvent d = .ok (.preamble x, d') ∧ GoodNext nl bnd ep pr lead d' fut ps) := by
-  rcases hg with ⟨hpl, hst, hcat, b0, c0, hbc, hb0, hpos⟩
+  rcases hg with ⟨hpl, hst, hcat, hpre, b0, c0, hbc, hb0, hpos⟩
   have hpl' := hpl
   rcases hpl with ⟨hbn, hcomp, hmm, hmp⟩
-  have hps := pre_search (nl := nl) (ep := ep) hb hpre hcat
+  have hps := pre_search (nl := nl) (ep := ep) hb hvs hpre hcat
   -- the retained search position does not matter: the first delimiter is short
   have hpad : PadOk bnd (b0 ++ c0) := by
     rw [← hbc]
@@ -1175,7 +1155,7 @@ theorem step_pre {bnd : Bytes} (hb : BoundaryOk bnd) (hpre : PreOk nl bnd pr lea
   rcases hps with ⟨hnone, hfut⟩ | ⟨e, f, hsome, hf, hlt, hle, _, hnext⟩
   · left
     let d' : Decoder := { d with searchPos := d.buffer.length - d.boundary.length - searchExtra }
-    refine ⟨d', ?_, ⟨hpl', hst, hcat, d.buffer, [], by simp [d'], hnone, by simp [d', hbn]⟩, hfut⟩
+    refine ⟨d', ?_, ⟨hpl', hst, hcat, hpre, d.buffer, [], by simp [d'], hnone, by simp [d', hbn]⟩, hfut⟩
     apply nextEvent_of_step' hcomp
     unfold step
     rw [hst]
@@ -1208,8 +1188,8 @@ theorem step_pre {bnd : Bytes} (hb : BoundaryOk bnd) (hpre : PreOk nl bnd pr lea
           by simp [searchBlank], by simp [d']⟩
 
 /-- a delimiter recognised in the buffer: it is the one that ends the part -/
-theorem decision_next {bnd : Bytes} (hb : BoundaryOk bnd) {d : Decoder} {fut pre : Bytes} {p : Part}
-    {ps : List Part} (hpl : Plain bnd d) (hsp : d.searchPos = 0)
+theorem decision_next {bnd : Bytes} (hb : BoundaryOk bnd) {d : Decoder} {fut pre : Bytes} {p : RawPart}
+    {ps : List RawPart} (hpl : Plain bnd d) (hsp : d.searchPos = 0)
     (hinv : DataInv nl bnd ep p ps pre d.buffer fut) {s1 e1 : Nat} {f1 : Bool}
     (hs : searchDelim bnd false d.buffer = some (s1, e1, f1)) :
     f1 = ps.isEmpty ∧ (pre ++ d.buffer.take s1).drop nl.len = p.payload ∧
@@ -1244,7 +1224,7 @@ theorem decision_next {bnd : Bytes} (hb : BoundaryOk bnd) {d : Decoder} {fut pre
         rw [this]; rfl
 
 /-- a hold-back release keeps the invariant -/
-theorem hold_next {bnd : Bytes} {pre buf fut : Bytes} {p : Part} {ps : List Part} {k : Nat}
+theorem hold_next {bnd : Bytes} {pre buf fut : Bytes} {p : RawPart} {ps : List RawPart} {k : Nat}
     (hinv : DataInv nl bnd ep p ps pre buf fut) (hk : k ≤ buf.length)
     (hsafe : searchDelim bnd false (buf ++ fut) = shift k (searchDelim bnd false (buf.drop k ++ fut))) :
     DataInv nl bnd ep p ps (pre ++ buf.take k) (buf.drop k) fut := by
@@ -1284,8 +1264,8 @@ theorem nextEvent_of_step {d d' : Decoder} {ev : Event} (hc : d.complete = false
   unfold nextEvent; rw [h, hc]; simp
 
 /-- one `next_event` in the DATA phase, on any prefix of the stream -/
-theorem step_dataM {bnd : Bytes} (hb : BoundaryOk bnd) {d : Decoder} {fut : Bytes} {p : Part}
-    {ps : List Part} {E : Bytes} (hg : Good nl bnd ep pr lead d fut (.dataM p ps E)) :
+theorem step_dataM {bnd : Bytes} (hb : BoundaryOk bnd) {d : Decoder} {fut : Bytes} {p : RawPart}
+    {ps : List RawPart} {E : Bytes} (hg : Good nl bnd ep pr lead d fut (.dataM p ps E)) :
     (∃ d', nextEvent d = .ok (.needData, d') ∧ Good nl bnd ep pr lead d' fut (.dataM p ps E) ∧ fut ≠ []) ∨
     (∃ x d', nextEvent d = .ok (.data x true, d') ∧ Good nl bnd ep pr lead d' fut (.dataM p ps (E ++ x))) ∨
     (∃ x d', E ++ x = p.payload ∧ nextEvent d = .ok (.data x false, d') ∧ GoodNext nl bnd ep pr lead d' fut ps) := by
@@ -1338,8 +1318,8 @@ theorem step_dataM {bnd : Bytes} (hb : BoundaryOk bnd) {d : Decoder} {fut : Byte
         rw [List.drop_append_of_le_length hpre2, hE]
 
 /-- one `next_event` in the DATA_START phase, on any prefix of the stream -/
-theorem step_dataS {bnd : Bytes} (hb : BoundaryOk bnd) {d : Decoder} {fut : Bytes} {p : Part}
-    {ps : List Part} (hg : Good nl bnd ep pr lead d fut (.dataS p ps)) :
+theorem step_dataS {bnd : Bytes} (hb : BoundaryOk bnd) {d : Decoder} {fut : Bytes} {p : RawPart}
+    {ps : List RawPart} (hg : Good nl bnd ep pr lead d fut (.dataS p ps)) :
     (nextEvent d = .ok (.needData, d) ∧ fut ≠ []) ∨
     (∃ x d', nextEvent d = .ok (.data x true, d') ∧ Good nl bnd ep pr lead d' fut (.dataM p ps x)) ∨
     (∃ d', nextEvent d = .ok (.data p.payload false, d') ∧ GoodNext nl bnd ep pr lead d' fut ps) := by
@@ -1411,16 +1391,16 @@ theorem step_epi {bnd : Bytes} {d : Decoder} {fut : Bytes} (hg : Good nl bnd ep 
 def CurOk : Phase → Option Part → Prop
   | .pre _, _ => True
   | .hdr _ _ _, _ => True
-  | .dataS p _, cur => cur = some { decodedPart p with payload := [] }
-  | .dataM p _ E, cur => cur = some { decodedPart p with payload := E }
+  | .dataS p _, cur => cur = some { p.out with payload := [] }
+  | .dataM p _ E, cur => cur = some { p.out with payload := E }
   | .epi, _ => True
 
 /-- what `partsGo` will have produced at the end -/
 def Exp : Phase → Option Part → List Part
-  | .pre ps, cur => cur.toList ++ ps.map decodedPart
-  | .hdr _ p ps, cur => cur.toList ++ (p :: ps).map decodedPart
-  | .dataS p ps, _ => (p :: ps).map decodedPart
-  | .dataM p ps _, _ => (p :: ps).map decodedPart
+  | .pre ps, cur => cur.toList ++ ps.map RawPart.out
+  | .hdr _ p ps, cur => cur.toList ++ (p :: ps).map RawPart.out
+  | .dataS p ps, _ => (p :: ps).map RawPart.out
+  | .dataM p ps _, _ => (p :: ps).map RawPart.out
   | .epi, cur => cur.toList
 
 /-- the events `evs` take the accounting from phase `ph` to phase `ph'` -/
@@ -1443,71 +1423,76 @@ theorem Acct.trans {a b c : Phase} {e1 e2 : List Event} (h1 : Acct a b e1) (h2 :
 
 /-- the parts of a phase are valid -/
 def PhaseValid (nl : Nl) (bnd : Bytes) : Phase → Prop
-  | .pre ps => ∀ q ∈ ps, ValidPart nl bnd q
-  | .hdr _ p ps => ValidPart nl bnd p ∧ ∀ q ∈ ps, ValidPart nl bnd q
-  | .dataS p ps => ValidPart nl bnd p ∧ ∀ q ∈ ps, ValidPart nl bnd q
-  | .dataM p ps _ => ValidPart nl bnd p ∧ ∀ q ∈ ps, ValidPart nl bnd q
+  | .pre ps => ∀ q ∈ ps, RawOk nl bnd q
+  | .hdr _ p ps => RawOk nl bnd p ∧ ∀ q ∈ ps, RawOk nl bnd q
+  | .dataS p ps => RawOk nl bnd p ∧ ∀ q ∈ ps, RawOk nl bnd q
+  | .dataM p ps _ => RawOk nl bnd p ∧ ∀ q ∈ ps, RawOk nl bnd q
   | .epi => True
 
-theorem acct_head {bnd : Bytes} {lf : Bool} {p : Part} {ps : List Part} (hv : ValidPart nl bnd p) :
-    Acct (.hdr lf p ps) (.dataS p ps) [partHeadEvent (decodedPart p)] := by
+theorem acct_head {bnd : Bytes} {lf : Bool} {p : RawPart} {ps : List RawPart} (hv : RawOk nl bnd p) :
+    Acct (.hdr lf p ps) (.dataS p ps) [partHeadEvent p.out] := by
   intro cur _
-  have hf := validPart_facts hv
-  refine ⟨some { decodedPart p with payload := [] }, cur.toList, rfl, ?_, rfl⟩
+  have hf := (rawOk_event hv).2
+  refine ⟨some { p.out with payload := [] }, cur.toList, rfl, ?_, rfl⟩
   intro rest
-  cases hfn : p.filename with
+  generalize p.out = q at hf ⊢
+  rcases q with ⟨isFile, name, filename, headers, payload⟩
+  simp only at hf
+  cases filename with
   | none =>
-    have hfile : p.isFile = false := by rw [hf.2.2.2.1, hfn]; rfl
-    simp [partHeadEvent, decodedPart, hfn, partsGo, hfile]
+    have hfile : isFile = false := by simpa using hf
+    subst hfile
+    simp [partHeadEvent, partsGo]
   | some f =>
-    have hfile : p.isFile = true := by rw [hf.2.2.2.1, hfn]; rfl
-    simp [partHeadEvent, decodedPart, hfn, partsGo, hfile]
+    have hfile : isFile = true := by simpa using hf
+    subst hfile
+    simp [partHeadEvent, partsGo]
 
-theorem acct_dataS_more {p : Part} {ps : List Part} {x : Bytes} :
+theorem acct_dataS_more {p : RawPart} {ps : List RawPart} {x : Bytes} :
     Acct (.dataS p ps) (.dataM p ps x) [.data x true] := by
   intro cur hc
   simp only [CurOk] at hc
   subst hc
-  exact ⟨some { decodedPart p with payload := x }, [], rfl, fun rest => by simp [partsGo], rfl⟩
+  exact ⟨some { p.out with payload := x }, [], rfl, fun rest => by simp [partsGo], rfl⟩
 
-theorem acct_dataM_more {p : Part} {ps : List Part} {E x : Bytes} :
+theorem acct_dataM_more {p : RawPart} {ps : List RawPart} {E x : Bytes} :
     Acct (.dataM p ps E) (.dataM p ps (E ++ x)) [.data x true] := by
   intro cur hc
   simp only [CurOk] at hc
   subst hc
-  exact ⟨some { decodedPart p with payload := E ++ x }, [], rfl, fun rest => by simp [partsGo], rfl⟩
+  exact ⟨some { p.out with payload := E ++ x }, [], rfl, fun rest => by simp [partsGo], rfl⟩
 
 /-- the phase after the last Data event of a part -/
-def nextPhaseOk (ph' : Phase) (ps : List Part) : Prop :=
+def nextPhaseOk (ph' : Phase) (ps : List RawPart) : Prop :=
   match ps with
   | [] => ph' = .epi
   | p' :: ps' => ∃ lf, ph' = .hdr lf p' ps'
 
-theorem acct_last {p : Part} {ps : List Part} {ph ph' : Phase} {E x : Bytes}
+theorem acct_last {p : RawPart} {ps : List RawPart} {ph ph' : Phase} {E x : Bytes}
     (hph : ph = .dataS p ps ∧ E = [] ∨ ph = .dataM p ps E) (hx : E ++ x = p.payload)
     (hn : nextPhaseOk ph' ps) : Acct ph ph' [.data x false] := by
   intro cur hc
-  have hcur : cur = some { decodedPart p with payload := E } := by
+  have hcur : cur = some { p.out with payload := E } := by
     rcases hph with ⟨rfl, rfl⟩ | rfl <;> simpa [CurOk] using hc
   subst hcur
-  have hq : ({ decodedPart p with payload := E ++ x } : Part) = decodedPart p := by
+  have hq : ({ p.out with payload := E ++ x } : Part) = p.out := by
     rw [hx]; rfl
-  have hexp : Exp ph (some { decodedPart p with payload := E }) = (p :: ps).map decodedPart := by
+  have hexp : Exp ph (some { p.out with payload := E }) = (p :: ps).map RawPart.out := by
     rcases hph with ⟨rfl, _⟩ | rfl <;> rfl
   cases ps with
   | nil =>
     simp only [nextPhaseOk] at hn
     subst hn
-    refine ⟨some (decodedPart p), [], trivial, ?_, ?_⟩
+    refine ⟨some (p.out), [], trivial, ?_, ?_⟩
     · intro rest; simp [partsGo, hq]
     · rw [hexp]; simp [Exp]
   | cons p' ps' =>
     rcases hn with ⟨lf, rfl⟩
-    refine ⟨some (decodedPart p), [], trivial, ?_, ?_⟩
+    refine ⟨some (p.out), [], trivial, ?_, ?_⟩
     · intro rest; simp [partsGo, hq]
     · rw [hexp]; simp [Exp]
 
-theorem acct_pre {ps : List Part} {ph' : Phase} (x : Bytes) (hn : nextPhaseOk ph' ps) :
+theorem acct_pre {ps : List RawPart} {ph' : Phase} (x : Bytes) (hn : nextPhaseOk ph' ps) :
     Acct (.pre ps) ph' [.preamble x] := by
   intro cur _
   cases ps with
@@ -1544,16 +1529,16 @@ def outOf (st : FormState) : FormOut := (st.fields, st.files)
 def CurOkF : Phase → FormState → Prop
   | .pre _, _ => True
   | .hdr _ _ _, _ => True
-  | .dataS p _, st => st.cur = some { decodedPart p with payload := [] }
-  | .dataM p _ E, st => st.cur = some { decodedPart p with payload := E }
+  | .dataS p _, st => st.cur = some { p.out with payload := [] }
+  | .dataM p _ E, st => st.cur = some { p.out with payload := E }
   | .epi, _ => True
 
 /-- what the parser will return from this phase on -/
 def ExpF : Phase → FormState → Except String FormOut
-  | .pre ps, st => formOfParts (outOf st) (ps.map decodedPart)
-  | .hdr _ p ps, st => formOfParts (outOf st) ((p :: ps).map decodedPart)
-  | .dataS p ps, st => formOfParts (outOf st) ((p :: ps).map decodedPart)
-  | .dataM p ps _, st => formOfParts (outOf st) ((p :: ps).map decodedPart)
+  | .pre ps, st => formOfParts (outOf st) (ps.map RawPart.out)
+  | .hdr _ p ps, st => formOfParts (outOf st) ((p :: ps).map RawPart.out)
+  | .dataS p ps, st => formOfParts (outOf st) ((p :: ps).map RawPart.out)
+  | .dataM p ps _, st => formOfParts (outOf st) ((p :: ps).map RawPart.out)
   | .epi, st => .ok (outOf st)
 
 /-- the events `evs` take the parser from phase `ph` to phase `ph'` (or make it fail the way the
@@ -1582,7 +1567,7 @@ theorem formEvents_cons (m : Option Nat) (st : FormState) (ev : Event) (rest : L
       | .error e => .error e
       | .ok st' => formEvents m st' rest := rfl
 
-theorem facct_pre {ps : List Part} {ph' : Phase} (x : Bytes) (hn : nextPhaseOk ph' ps) :
+theorem facct_pre {ps : List RawPart} {ph' : Phase} (x : Bytes) (hn : nextPhaseOk ph' ps) :
     FAcct (.pre ps) ph' [.preamble x] := by
   intro st _
   left
@@ -1595,48 +1580,48 @@ theorem facct_pre {ps : List Part} {ph' : Phase} (x : Bytes) (hn : nextPhaseOk p
     rcases hn with ⟨lf, rfl⟩
     exact ⟨st, trivial, fun rest => by simp [formEvents_cons, formEvent], rfl⟩
 
-theorem facct_head {bnd : Bytes} {lf : Bool} {p : Part} {ps : List Part} (hv : ValidPart nl bnd p) :
-    FAcct (.hdr lf p ps) (.dataS p ps) [partHeadEvent (decodedPart p)] := by
+theorem facct_head {bnd : Bytes} {lf : Bool} {p : RawPart} {ps : List RawPart} (hv : RawOk nl bnd p) :
+    FAcct (.hdr lf p ps) (.dataS p ps) [partHeadEvent p.out] := by
   intro st _
   left
-  have hf := validPart_facts hv
-  cases hfn : p.filename with
+  have hf := (rawOk_event hv).2
+  cases hfn : p.out.filename with
   | none =>
-    have hfile : p.isFile = false := by rw [hf.2.2.2.1, hfn]; rfl
-    refine ⟨{ st with cur := some { decodedPart p with payload := [] }, fieldSize := some 0 }, ?_, ?_, rfl⟩
+    have hfile : p.out.isFile = false := by rw [hf, hfn]; rfl
+    refine ⟨{ st with cur := some { p.out with payload := [] }, fieldSize := some 0 }, ?_, ?_, rfl⟩
     · rfl
     · intro rest
-      simp [formEvents_cons, formEvent, partHeadEvent, decodedPart, hfn, hfile]
+      simp [formEvents_cons, formEvent, partHeadEvent, hfn, hfile]
   | some f =>
-    have hfile : p.isFile = true := by rw [hf.2.2.2.1, hfn]; rfl
-    refine ⟨{ st with cur := some { decodedPart p with payload := [] }, fieldSize := none }, ?_, ?_, rfl⟩
+    have hfile : p.out.isFile = true := by rw [hf, hfn]; rfl
+    refine ⟨{ st with cur := some { p.out with payload := [] }, fieldSize := none }, ?_, ?_, rfl⟩
     · rfl
     · intro rest
-      simp [formEvents_cons, formEvent, partHeadEvent, decodedPart, hfn, hfile]
+      simp [formEvents_cons, formEvent, partHeadEvent, hfn, hfile]
 
-theorem facct_more {p : Part} {ps : List Part} {ph : Phase} {E x : Bytes}
+theorem facct_more {p : RawPart} {ps : List RawPart} {ph : Phase} {E x : Bytes}
     (hph : ph = .dataS p ps ∧ E = [] ∨ ph = .dataM p ps E) :
     FAcct ph (.dataM p ps (E ++ x)) [.data x true] := by
   intro st hc
   left
-  have hcur : st.cur = some { decodedPart p with payload := E } := by
+  have hcur : st.cur = some { p.out with payload := E } := by
     rcases hph with ⟨rfl, rfl⟩ | rfl <;> simpa [CurOkF] using hc
-  refine ⟨{ st with cur := some { decodedPart p with payload := E ++ x } }, rfl, ?_, ?_⟩
+  refine ⟨{ st with cur := some { p.out with payload := E ++ x } }, rfl, ?_, ?_⟩
   · intro rest
     simp [formEvents_cons, formEvent, fieldSizeStep, hcur]
   · rcases hph with ⟨rfl, _⟩ | rfl <;> rfl
 
-theorem facct_last {p : Part} {ps : List Part} {ph ph' : Phase} {E x : Bytes}
+theorem facct_last {p : RawPart} {ps : List RawPart} {ph ph' : Phase} {E x : Bytes}
     (hph : ph = .dataS p ps ∧ E = [] ∨ ph = .dataM p ps E) (hx : E ++ x = p.payload)
     (hn : nextPhaseOk ph' ps) : FAcct ph ph' [.data x false] := by
   intro st hc
-  have hcur : st.cur = some { decodedPart p with payload := E } := by
+  have hcur : st.cur = some { p.out with payload := E } := by
     rcases hph with ⟨rfl, rfl⟩ | rfl <;> simpa [CurOkF] using hc
-  have hq : ({ decodedPart p with payload := E ++ x } : Part) = decodedPart p := by rw [hx]; rfl
-  have hx' : E ++ x = (decodedPart p).payload := hx
-  have hexp : ExpF ph st = formOfParts (outOf st) (decodedPart p :: ps.map decodedPart) := by
+  have hq : ({ p.out with payload := E ++ x } : Part) = p.out := by rw [hx]; rfl
+  have hx' : E ++ x = (p.out).payload := hx
+  have hexp : ExpF ph st = formOfParts (outOf st) (p.out :: ps.map RawPart.out) := by
     rcases hph with ⟨rfl, _⟩ | rfl <;> rfl
-  have hnext : ∀ st' : FormState, ExpF ph' st' = formOfParts (outOf st') (ps.map decodedPart) := by
+  have hnext : ∀ st' : FormState, ExpF ph' st' = formOfParts (outOf st') (ps.map RawPart.out) := by
     intro st'
     cases ps with
     | nil => simp only [nextPhaseOk] at hn; subst hn; simp [ExpF, formOfParts]
@@ -1648,19 +1633,19 @@ theorem facct_last {p : Part} {ps : List Part} {ph ph' : Phase} {E x : Bytes}
     | cons p' ps' => rcases hn with ⟨lf, rfl⟩; trivial
   rw [hexp]
   simp only [formOfParts, finishP]
-  cases hfile : (decodedPart p).isFile with
+  cases hfile : (p.out).isFile with
   | true =>
     left
-    refine ⟨{ st with cur := some (decodedPart p),
-                      files := st.files ++ [⟨(decodedPart p).name, (decodedPart p).filename.getD [],
-                        (decodedPart p).headers, (decodedPart p).payload⟩] }, hcok _, ?_, ?_⟩
+    refine ⟨{ st with cur := some (p.out),
+                      files := st.files ++ [⟨(p.out).name, (p.out).filename.getD [],
+                        (p.out).headers, (p.out).payload⟩] }, hcok _, ?_, ?_⟩
     · intro rest
       simp only [List.cons_append, List.nil_append, formEvents_cons, formEvent, fieldSizeStep, hcur, hq]
       simp [hfile, hx']
     · simp only [if_true]; rw [hnext]; rfl
   | false =>
     simp only [Bool.false_eq_true, if_false]
-    cases hcs : partCharset (decodedPart p).headers with
+    cases hcs : partCharset (p.out).headers with
     | error e =>
       right
       refine ⟨e, ?_, rfl⟩
@@ -1669,16 +1654,16 @@ theorem facct_last {p : Part} {ps : List Part} {ph ph' : Phase} {E x : Bytes}
       simp [hfile, hcs]
     | ok cs =>
       left
-      refine ⟨{ st with cur := some (decodedPart p),
-                        fields := st.fields ++ [((decodedPart p).name, decodeCharset cs (decodedPart p).payload)] },
+      refine ⟨{ st with cur := some (p.out),
+                        fields := st.fields ++ [((p.out).name, decodeCharset cs (p.out).payload)] },
         hcok _, ?_, ?_⟩
       · intro rest
         simp only [List.cons_append, List.nil_append, formEvents_cons, formEvent, fieldSizeStep, hcur, hq]
         simp [hfile, hcs, hx']
       · simp only; rw [hnext]; rfl
 
-theorem goodNext_phase {bnd : Bytes} {d : Decoder} {fut : Bytes} {ps : List Part}
-    (h : GoodNext nl bnd ep pr lead d fut ps) (hv : ∀ q ∈ ps, ValidPart nl bnd q) :
+theorem goodNext_phase {bnd : Bytes} {d : Decoder} {fut : Bytes} {ps : List RawPart}
+    (h : GoodNext nl bnd ep pr lead d fut ps) (hv : ∀ q ∈ ps, RawOk nl bnd q) :
     ∃ ph', Good nl bnd ep pr lead d fut ph' ∧ PhaseValid nl bnd ph' ∧ nextPhaseOk ph' ps := by
   cases ps with
   | nil => exact ⟨.epi, h, trivial, rfl⟩
@@ -1697,7 +1682,7 @@ theorem shrink_step {d d1 : Decoder} {ev : Event} {n : Nat} (hn : nextEvent d = 
 /-- **draining keeps the run on track**: from any good configuration, `drain` delivers events that
 account for the expected parts and stops in a good configuration; when nothing more is to come it
 stops after the closing delimiter. -/
-theorem drain_good {bnd : Bytes} (hb : BoundaryOk bnd) (hpre : PreOk nl bnd pr lead) (fut : Bytes) :
+theorem drain_good {bnd : Bytes} (hb : BoundaryOk bnd) (fut : Bytes) :
     ∀ (n : Nat) (d : Decoder) (ph : Phase) (acc : List Event), d.buffer.length ≤ n →
       Good nl bnd ep pr lead d fut ph → PhaseValid nl bnd ph →
       ∃ evs d' ph', DrainsOk d acc evs d' ∧ Good nl bnd ep pr lead d' fut ph' ∧ PhaseValid nl bnd ph' ∧ Acct ph ph' evs ∧
@@ -1709,11 +1694,11 @@ theorem drain_good {bnd : Bytes} (hb : BoundaryOk bnd) (hpre : PreOk nl bnd pr l
     cases ph with
     | epi => exact ⟨[], d, .epi, DrainsOk.stop acc (step_epi hg), hg, trivial, Acct.refl _, FAcct.refl _, fun _ => rfl⟩
     | pre ps =>
-      rcases step_pre hb hpre hg with ⟨d', h1, h2, h3⟩ | ⟨x, d', h1, _⟩
+      rcases step_pre hb hv hg with ⟨d', h1, h2, h3⟩ | ⟨x, d', h1, _⟩
       · exact ⟨[], d', _, DrainsOk.stop acc h1, h2, hv, Acct.refl _, FAcct.refl _, fun h => absurd h h3⟩
       · rcases shrink_step h1 (by simp) (by simp) hle with ⟨k, hk, _⟩; omega
     | hdr lf p ps =>
-      rcases step_hdr hb hv.1 hg with ⟨d', h1, h2, h3⟩ | ⟨d', h1, _⟩
+      rcases step_hdr hb hv.1 hv.2 hg with ⟨d', h1, h2, h3⟩ | ⟨d', h1, _⟩
       · exact ⟨[], d', _, DrainsOk.stop acc h1, h2, hv, Acct.refl _, FAcct.refl _, fun h => absurd h h3⟩
       · rcases shrink_step h1 (by unfold partHeadEvent; split <;> simp) (by unfold partHeadEvent; intro x; split <;> simp) hle
           with ⟨k, hk, _⟩
@@ -1733,7 +1718,7 @@ theorem drain_good {bnd : Bytes} (hb : BoundaryOk bnd) (hpre : PreOk nl bnd pr l
     cases ph with
     | epi => exact ⟨[], d, .epi, DrainsOk.stop acc (step_epi hg), hg, trivial, Acct.refl _, FAcct.refl _, fun _ => rfl⟩
     | pre ps =>
-      rcases step_pre hb hpre hg with ⟨d', h1, h2, h3⟩ | ⟨x, d', h1, h2⟩
+      rcases step_pre hb hv hg with ⟨d', h1, h2, h3⟩ | ⟨x, d', h1, h2⟩
       · exact ⟨[], d', _, DrainsOk.stop acc h1, h2, hv, Acct.refl _, FAcct.refl _, fun h => absurd h h3⟩
       · rcases shrink_step h1 (by simp) (by simp) hle with ⟨k, hk, hle'⟩
         have hk' : k = n := by omega
@@ -1743,13 +1728,13 @@ theorem drain_good {bnd : Bytes} (hb : BoundaryOk bnd) (hpre : PreOk nl bnd pr l
         exact ⟨_, d2, ph2, DrainsOk.step_pre h1 hd, hg2, hv2, Acct.trans (acct_pre x hn1) ha,
           FAcct.trans (facct_pre x hn1) hfa, hf⟩
     | hdr lf p ps =>
-      rcases step_hdr hb hv.1 hg with ⟨d', h1, h2, h3⟩ | ⟨d', h1, h2⟩
+      rcases step_hdr hb hv.1 hv.2 hg with ⟨d', h1, h2, h3⟩ | ⟨d', h1, h2⟩
       · exact ⟨[], d', _, DrainsOk.stop acc h1, h2, hv, Acct.refl _, FAcct.refl _, fun h => absurd h h3⟩
       · rcases shrink_step h1 (by unfold partHeadEvent; split <;> simp) (by unfold partHeadEvent; intro x; split <;> simp) hle
           with ⟨k, hk, hle'⟩
         have hk' : k = n := by omega
         subst hk'
-        rcases ih d' (.dataS p ps) (partHeadEvent (decodedPart p) :: acc) hle' h2 hv with
+        rcases ih d' (.dataS p ps) (partHeadEvent (p.out) :: acc) hle' h2 hv with
           ⟨evs, d2, ph2, hd, hg2, hv2, ha, hfa, hf⟩
         exact ⟨_, d2, ph2, DrainsOk.step_head h1 hd, hg2, hv2, Acct.trans (acct_head hv.1) ha, FAcct.trans (facct_head hv.1) hfa, hf⟩
     | dataS p ps =>
@@ -1799,8 +1784,8 @@ theorem good_receive {bnd : Bytes} {d : Decoder} {c fut : Bytes} {ph : Phase}
   cases ph with
   | epi => exact ⟨⟨hbn, hcomp, hmm, hmp⟩, hg.2⟩
   | pre ps =>
-    rcases hg with ⟨_, hst, hcat, b0, c0, hbc, hb0, hpos⟩
-    exact ⟨⟨hbn, hcomp, hmm, hmp⟩, hst, by simpa using hcat, b0, c0 ++ c, by simp [hbc], hb0, hpos⟩
+    rcases hg with ⟨_, hst, hcat, hfree, b0, c0, hbc, hb0, hpos⟩
+    exact ⟨⟨hbn, hcomp, hmm, hmp⟩, hst, by simpa using hcat, hfree, b0, c0 ++ c, by simp [hbc], hb0, hpos⟩
   | hdr lf p ps =>
     rcases hg with ⟨_, hst, hcat, b0, c0, hbc, hb0, hpos⟩
     exact ⟨⟨hbn, hcomp, hmm, hmp⟩, hst, by simpa using hcat, b0, c0 ++ c, by simp [hbc], hb0, hpos⟩
@@ -1825,7 +1810,7 @@ theorem feed_none_epi {bnd : Bytes} {d : Decoder} (hg : Good nl bnd ep pr lead d
     simp [nextEvent, step, hst]
   simp [feed, receive, drainFuel, drain_succ, hn]
 
-theorem feedAll_good {bnd : Bytes} (hb : BoundaryOk bnd) (hpre : PreOk nl bnd pr lead) (chunks : List Bytes) :
+theorem feedAll_good {bnd : Bytes} (hb : BoundaryOk bnd) (chunks : List Bytes) :
     ∀ (d : Decoder) (ph : Phase), Good nl bnd ep pr lead d chunks.flatten ph → PhaseValid nl bnd ph →
       (chunks.flatten = [] → ph = .epi) → ∀ cur, CurOk ph cur →
       (feedAll d chunks).err = none ∧ partsGo cur (feedAll d chunks).events = Exp ph cur := by
@@ -1841,7 +1826,7 @@ theorem feedAll_good {bnd : Bytes} (hb : BoundaryOk bnd) (hpre : PreOk nl bnd pr
     intro d ph hg hv hepi cur hc
     simp only [List.flatten_cons] at hg
     rcases good_receive hg with ⟨d1, hr, hg1⟩
-    rcases drain_good hb hpre cs.flatten d1.buffer.length d1 ph [] (Nat.le_refl _) hg1 hv with
+    rcases drain_good hb cs.flatten d1.buffer.length d1 ph [] (Nat.le_refl _) hg1 hv with
       ⟨evs, d2, ph2, hd, hg2, hv2, ha, _, hf⟩
     have hfeed := DrainsOk.toFeed hr hd
     rcases ha cur hc with ⟨cur2, out, hc2, hp, hx⟩
@@ -1849,26 +1834,23 @@ theorem feedAll_good {bnd : Bytes} (hb : BoundaryOk bnd) (hpre : PreOk nl bnd pr
     simp only [feedAll, hfeed]
     exact ⟨herr, by rw [hp, hparts, hx]⟩
 
-theorem preOk_trivial (nl : Nl) (bnd : Bytes) : PreOk nl bnd [] true := by
-  simp [PreOk, containsSub, delim]
-
-theorem bodyOf_nonempty (nl : Nl) (bnd ep pr : Bytes) (lead : Bool) (ps : List Part) : bodyOf nl bnd ep pr lead ps ≠ [] := by
-  unfold bodyOf
-  rw [encBody_eq]
+theorem bodyOfR_nonempty (nl : Nl) (bnd ep pr : Bytes) (lead : Bool) (ps : List RawPart) : bodyOfR nl bnd ep pr lead ps ≠ [] := by
+  unfold bodyOfR
+  rw [rawBody_eq]
   cases lead
   · simp [delim, Nl.len]
   · simp [delim]
 
 /-- **chunk independence on encoder output, from the first header block on** -/
-theorem decode_chunks_lemma {bnd : Bytes} (hb : BoundaryOk bnd) (ps : List Part)
-    (hv : ∀ p ∈ ps, ValidPart nl bnd p) (chunks : List Bytes) (hjoin : chunks.flatten = afterOf nl bnd ep ps) :
+theorem decode_chunks_lemma {bnd : Bytes} (hb : BoundaryOk bnd) (ps : List RawPart)
+    (hv : ∀ p ∈ ps, RawOk nl bnd p) (chunks : List Bytes) (hjoin : chunks.flatten = rAfterOf nl bnd ep ps) :
     (feedAll (mkD bnd [] (afterDelim ps.isEmpty) 0) chunks).err = none ∧
-    partsOf (feedAll (mkD bnd [] (afterDelim ps.isEmpty) 0) chunks).events = ps.map decodedPart := by
+    partsOf (feedAll (mkD bnd [] (afterDelim ps.isEmpty) 0) chunks).events = ps.map RawPart.out := by
   cases ps with
   | nil =>
-    have hg : Good nl bnd ep [] true (mkD bnd [] (afterDelim ([] : List Part).isEmpty) 0) chunks.flatten .epi :=
+    have hg : Good nl bnd ep [] true (mkD bnd [] (afterDelim ([] : List RawPart).isEmpty) 0) chunks.flatten .epi :=
       ⟨⟨rfl, rfl, rfl, rfl⟩, rfl⟩
-    have := feedAll_good hb (preOk_trivial nl bnd) chunks _ .epi hg trivial (fun _ => rfl) none trivial
+    have := feedAll_good hb chunks _ .epi hg trivial (fun _ => rfl) none trivial
     simpa [partsOf, Exp] using this
   | cons p ps =>
     have hg : Good nl bnd ep [] true (mkD bnd [] (afterDelim (p :: ps).isEmpty) 0) chunks.flatten
@@ -1877,32 +1859,32 @@ theorem decode_chunks_lemma {bnd : Bytes} (hb : BoundaryOk bnd) (ps : List Part)
     have hne : chunks.flatten = [] → Phase.hdr false p ps = .epi := by
       intro h0
       rw [hjoin] at h0
-      rcases hdrBlock_head nl (nameOf p) p with ⟨r, hr⟩
-      rw [afterOf_cons, hr] at h0
+      rcases rawOk_head (hv p (by simp)) with ⟨x, r, hr, _⟩
+      rw [rAfterOf_cons, hr] at h0
       simp at h0
-    have := feedAll_good hb (preOk_trivial nl bnd) chunks _ (.hdr false p ps) hg
+    have := feedAll_good hb chunks _ (.hdr false p ps) hg
       ⟨hv p (by simp), fun q hq => hv q (by simp [hq])⟩ hne none trivial
     simpa [partsOf, Exp] using this
 
 /-- **chunk independence from the first byte, with preamble and epilogue** -/
-theorem decode_chunks_full_lemma {bnd : Bytes} (hb : BoundaryOk bnd) (hpre : PreOk nl bnd pr lead)
-    (ps : List Part) (hv : ∀ p ∈ ps, ValidPart nl bnd p) (chunks : List Bytes)
-    (hjoin : chunks.flatten = bodyOf nl bnd ep pr lead ps) :
+theorem decode_chunks_full_raw {bnd : Bytes} (hb : BoundaryOk bnd) (ps : List RawPart)
+    (hpre : PreFreeR nl bnd ep pr lead ps) (hv : ∀ p ∈ ps, RawOk nl bnd p) (chunks : List Bytes)
+    (hjoin : chunks.flatten = bodyOfR nl bnd ep pr lead ps) :
     (decodeChunks bnd none none chunks).err = none ∧
-    partsOf (decodeChunks bnd none none chunks).events = ps.map decodedPart := by
+    partsOf (decodeChunks bnd none none chunks).events = ps.map RawPart.out := by
   have hg : Good nl bnd ep pr lead (mkDecoder bnd none none) chunks.flatten (.pre ps) :=
-    ⟨⟨rfl, rfl, rfl, rfl⟩, rfl, by simp [mkDecoder, hjoin], [], [], rfl, by simp [searchDelim],
+    ⟨⟨rfl, rfl, rfl, rfl⟩, rfl, by simp [mkDecoder, hjoin], hpre, [], [], rfl, by simp [searchDelim],
       by simp [mkDecoder]⟩
   have hne : chunks.flatten = [] → Phase.pre ps = .epi := by
     intro h0
     rw [hjoin] at h0
-    exact absurd h0 (bodyOf_nonempty nl bnd ep pr lead ps)
-  have := feedAll_good hb hpre chunks _ (.pre ps) hg hv hne none trivial
+    exact absurd h0 (bodyOfR_nonempty nl bnd ep pr lead ps)
+  have := feedAll_good hb chunks _ (.pre ps) hg hv hne none trivial
   simpa [partsOf, Exp, decodeChunks] using this
 
 /-! ### one level up: `MultiPartParser.parse` over any read schedule -/
 
-theorem formLoop_good {bnd : Bytes} (hb : BoundaryOk bnd) (hpre : PreOk nl bnd pr lead) (chunks : List Bytes) :
+theorem formLoop_good {bnd : Bytes} (hb : BoundaryOk bnd) (chunks : List Bytes) :
     ∀ (d : Decoder) (ph : Phase) (st : FormState), Good nl bnd ep pr lead d chunks.flatten ph → PhaseValid nl bnd ph →
       (chunks.flatten = [] → ph = .epi) → CurOkF ph st →
       (formLoop none d st (chunks.map some ++ [none])).map outOf = ExpF ph st := by
@@ -1918,7 +1900,7 @@ theorem formLoop_good {bnd : Bytes} (hb : BoundaryOk bnd) (hpre : PreOk nl bnd p
     intro d ph st hg hv hepi hc
     simp only [List.flatten_cons] at hg
     rcases good_receive hg with ⟨d1, hr, hg1⟩
-    rcases drain_good hb hpre cs.flatten d1.buffer.length d1 ph [] (Nat.le_refl _) hg1 hv with
+    rcases drain_good hb cs.flatten d1.buffer.length d1 ph [] (Nat.le_refl _) hg1 hv with
       ⟨evs, d2, ph2, hd, hg2, hv2, _, hfa, hf⟩
     have hfeed := DrainsOk.toFeed hr hd
     simp only [List.map_cons, List.cons_append, formLoop, hfeed]
@@ -1952,26 +1934,106 @@ theorem readChunks_flatten (bufSize : Nat) : ∀ (fuel : Nat) (sched : List Nat)
         omega
 
 /-- **the form parser**: fields and files for every buffer size and read schedule -/
-theorem formParse_lemma {bnd : Bytes} (hb : BoundaryOk bnd) (hpre : PreOk nl bnd pr lead) (ps : List Part)
-    (hv : ∀ p ∈ ps, ValidPart nl bnd p) (bufSize : Nat) (sched : List Nat) :
-    formParse bnd none none bufSize sched (bodyOf nl bnd ep pr lead ps) =
-      formOfParts ([], []) (ps.map decodedPart) := by
-  generalize hB : bodyOf nl bnd ep pr lead ps = body
+theorem formParse_raw {bnd : Bytes} (hb : BoundaryOk bnd) (ps : List RawPart)
+    (hpre : PreFreeR nl bnd ep pr lead ps)
+    (hv : ∀ p ∈ ps, RawOk nl bnd p) (bufSize : Nat) (sched : List Nat) :
+    formParse bnd none none bufSize sched (bodyOfR nl bnd ep pr lead ps) =
+      formOfParts ([], []) (ps.map RawPart.out) := by
+  generalize hB : bodyOfR nl bnd ep pr lead ps = body
   have hfl := readChunks_flatten bufSize body.length sched body (Nat.le_refl _)
   have hg : Good nl bnd ep pr lead (mkDecoder bnd none none)
       (readChunks bufSize body.length sched body).flatten (.pre ps) :=
-    ⟨⟨rfl, rfl, rfl, rfl⟩, rfl, by simp [mkDecoder, hfl, hB], [], [], rfl, by simp [searchDelim],
+    ⟨⟨rfl, rfl, rfl, rfl⟩, rfl, by simp [mkDecoder, hfl, hB], hpre, [], [], rfl, by simp [searchDelim],
       by simp [mkDecoder]⟩
   have hne : (readChunks bufSize body.length sched body).flatten = [] → Phase.pre ps = .epi := by
     intro h0
     rw [hfl, ← hB] at h0
-    exact absurd h0 (bodyOf_nonempty nl bnd ep pr lead ps)
-  have := formLoop_good hb hpre _ _ (.pre ps) {} hg hv hne trivial
+    exact absurd h0 (bodyOfR_nonempty nl bnd ep pr lead ps)
+  have := formLoop_good hb _ _ (.pre ps) {} hg hv hne trivial
   unfold formParse
   simp only
   cases hl : formLoop none (mkDecoder bnd none none) {}
       ((readChunks bufSize body.length sched body).map some ++ [none]) with
   | error e => rw [hl] at this; simpa [Except.map, ExpF, outOf] using this
   | ok st => rw [hl] at this; simpa [Except.map, ExpF, outOf] using this
+
+/-! ### parts with `Name: value` header lines (the shape the encoder writes) -/
+
+/-- the whole body for encoder-shaped parts -/
+def bodyOf (nl : Nl) (bnd ep pr : Bytes) (lead : Bool) (ps : List Part) : Bytes :=
+  pr ++ (if lead then encBody nl bnd ep ps else (encBody nl bnd ep ps).drop nl.len)
+
+/-- the preamble does not contain `--boundary` (it may contain anything else, line breaks and dashes
+included) and, for bare-LF bodies, does not end in CR (which would merge with the LF of the first
+delimiter); without the leading line break there is no preamble -/
+def PreOk (nl : Nl) (bnd pr : Bytes) (lead : Bool) : Prop :=
+  if lead then containsSub (delim bnd) pr = false ∧ (nl = .lf → pr.getLast? ≠ some 13) else pr = []
+
+instance (nl : Nl) (bnd pr : Bytes) (lead : Bool) : Decidable (PreOk nl bnd pr lead) := by
+  unfold PreOk; split <;> infer_instance
+
+/-- `PreFreeR` for encoder-shaped parts -/
+def PreFree (nl : Nl) (bnd ep pr : Bytes) (lead : Bool) (ps : List Part) : Prop :=
+  if lead then ∀ j, j < pr.length → matchDelimAt bnd true ((pr ++ encBody nl bnd ep ps).drop j) = none
+  else pr = []
+
+instance (nl : Nl) (bnd ep pr : Bytes) (lead : Bool) (ps : List Part) : Decidable (PreFree nl bnd ep pr lead ps) := by
+  unfold PreFree; split <;> infer_instance
+
+theorem bodyOf_raw (bnd : Bytes) (ps : List Part) :
+    bodyOfR nl bnd ep pr lead (ps.map (rawOf nl)) = bodyOf nl bnd ep pr lead ps := by
+  simp only [bodyOfR, bodyOf, rawBody_map]
+
+theorem preFree_raw {bnd : Bytes} {ps : List Part} (h : PreFree nl bnd ep pr lead ps) :
+    PreFreeR nl bnd ep pr lead (ps.map (rawOf nl)) := by
+  simpa only [PreFreeR, PreFree, rawBody_map] using h
+
+/-- a preamble without `--boundary` is admissible, whatever raw parts follow -/
+theorem preFreeR_of_preOk {bnd : Bytes} (hb : BoundaryOk bnd) (ps : List RawPart) (hpre : PreOk nl bnd pr lead) :
+    PreFreeR nl bnd ep pr lead ps := by
+  cases lead with
+  | false => simpa [PreOk, PreFreeR] using hpre
+  | true =>
+    simp only [PreOk, if_true] at hpre
+    simp only [PreFreeR, if_true]
+    rcases nl.head_spec (delim bnd ++ rTailOf nl bnd ep ps) with ⟨c, Y, hcY, hcn, hc10⟩
+    rw [rawBody_eq, hcY]
+    exact no_match_in_pre hb Y hcn hpre.1 (fun e => hpre.2 (hc10 e))
+
+theorem preFree_of_preOk {bnd : Bytes} (hb : BoundaryOk bnd) (ps : List Part) (hpre : PreOk nl bnd pr lead) :
+    PreFree nl bnd ep pr lead ps := by
+  have := preFreeR_of_preOk (nl := nl) (ep := ep) hb (ps.map (rawOf nl)) hpre
+  simpa only [PreFreeR, PreFree, rawBody_map] using this
+
+theorem preFree_trivial (nl : Nl) (bnd ep : Bytes) (ps : List Part) : PreFree nl bnd ep [] true ps := by
+  simp [PreFree]
+
+theorem rawOk_map {bnd : Bytes} {ps : List Part} (hv : ∀ p ∈ ps, ValidPart nl bnd p) :
+    ∀ q ∈ ps.map (rawOf nl), RawOk nl bnd q := by
+  intro q hq
+  rcases List.mem_map.1 hq with ⟨p, hp, rfl⟩
+  exact rawOk_of_validPart (hv p hp)
+
+/-- **chunk independence from the first byte, with preamble and epilogue** (encoder-shaped parts) -/
+theorem decode_chunks_full_lemma {bnd : Bytes} (hb : BoundaryOk bnd) (ps : List Part)
+    (hpre : PreFree nl bnd ep pr lead ps) (hv : ∀ p ∈ ps, ValidPart nl bnd p) (chunks : List Bytes)
+    (hjoin : chunks.flatten = bodyOf nl bnd ep pr lead ps) :
+    (decodeChunks bnd none none chunks).err = none ∧
+    partsOf (decodeChunks bnd none none chunks).events = ps.map decodedPart := by
+  have := decode_chunks_full_raw (nl := nl) (ep := ep) hb (ps.map (rawOf nl)) (preFree_raw hpre) (rawOk_map hv)
+    chunks (by rw [hjoin, bodyOf_raw])
+  rw [map_rawOf_out ps hv] at this
+  exact this
+
+/-- **the form parser**: fields and files for every buffer size and read schedule (encoder-shaped parts) -/
+theorem formParse_lemma {bnd : Bytes} (hb : BoundaryOk bnd) (ps : List Part)
+    (hpre : PreFree nl bnd ep pr lead ps)
+    (hv : ∀ p ∈ ps, ValidPart nl bnd p) (bufSize : Nat) (sched : List Nat) :
+    formParse bnd none none bufSize sched (bodyOf nl bnd ep pr lead ps) =
+      formOfParts ([], []) (ps.map decodedPart) := by
+  have := formParse_raw (nl := nl) (ep := ep) hb (ps.map (rawOf nl)) (preFree_raw hpre) (rawOk_map hv)
+    bufSize sched
+  rw [map_rawOf_out ps hv, bodyOf_raw] at this
+  exact this
 
 end Wz.Multipart
